@@ -3,7 +3,7 @@ from __future__ import annotations
 
 import ast
 
-from .. import astu, types
+from .. import astu, evid, types
 from ..cfg import cfg_of
 from ..model import AnalysisError, Func
 from ..report import key_of
@@ -58,10 +58,10 @@ def r1(R, repo):
         astu.src(n.ast.comparators[0]).startswith('_MsgpackExtType.'):
       handled[n.ast.comparators[0].attr] = n
   for m_ in members:
-    R.check(m_ in produced, key_of(pack, 'produces %s' % m_), pack, 'extension type %s is never written' % m_)
-    R.check(m_ in handled, key_of(unpack, 'handles %s' % m_), unpack, 'extension type %s is written but not decoded: it would come back as a raw msgpack.ExtType' % m_)
+    R.judge(len(produced) >= 2, m_ in produced, key_of(pack, 'produces %s' % m_), pack, 'extension type %s is never written' % m_)
+    R.judge(len(handled) >= 2, m_ in handled, key_of(unpack, 'handles %s' % m_), unpack, 'extension type %s is written but not decoded: it would come back as a raw msgpack.ExtType' % m_)
   extra = sorted((set(produced) | set(handled)) - set(members))
-  R.check(not extra, key_of(mod.rel, 'no unknown extension codes'), mod, 'codes %s are used but are not members of _MsgpackExtType' % extra)
+  R.check(not extra, key_of(mod.rel, 'no unknown extension codes'), mod, evidence=True, msg_fail= 'codes %s are used but are not members of _MsgpackExtType' % extra)
   # codec pairing per member
   data = astu.params(unpack.node)[1]
 
@@ -76,7 +76,7 @@ def r1(R, repo):
     r = branch_ret('ndarray')
     ok = isinstance(w, ast.Call) and astu.call_name(w) == '_ndarray_to_bytes' and isinstance(r, ast.Call) and astu.call_name(r) == '_ndarray_from_bytes' \
         and astu.src(r.args[0]) == data and astu.src(w.args[0]) == astu.params(pack.node)[0]
-    R.check(ok, key_of(mod.rel, 'ndarray codec pair'), (pack, produced['ndarray']), 'ndarray must be written with _ndarray_to_bytes(x) and read with _ndarray_from_bytes(data)')
+    R.judge(isinstance(w, ast.Call) and isinstance(r, ast.Call), ok, key_of(mod.rel, 'ndarray codec pair'), (pack, produced['ndarray']), 'ndarray must be written with _ndarray_to_bytes(x) and read with _ndarray_from_bytes(data)')
   if 'npscalar' in produced and 'npscalar' in handled:
     w = produced['npscalar'].args[1]
     r = branch_ret('npscalar')
@@ -88,7 +88,7 @@ def r1(R, repo):
       rr = base
     ok = isinstance(w, ast.Call) and astu.call_name(w) == '_ndarray_to_bytes' and isinstance(r, ast.Subscript) and astu.src(r.slice) == '()' and \
         isinstance(rr, ast.Call) and astu.call_name(rr) == '_ndarray_from_bytes'
-    R.check(ok, key_of(mod.rel, 'npscalar codec pair'), (pack, produced['npscalar']), 'numpy scalars must be written as rank-0 arrays and read back with ar[()]')
+    R.judge(isinstance(w, ast.Call) and r is not None and astu.call_name(w) == '_ndarray_to_bytes' and (isinstance(r, (ast.Name, ast.Call)) or isinstance(rr, ast.Call)), ok, key_of(mod.rel, 'npscalar codec pair'), (pack, produced['npscalar']), 'numpy scalars must be written as rank-0 arrays and read back with ar[()]')
   if 'native_complex' in produced and 'native_complex' in handled:
     w = produced['native_complex'].args[1]
     r = branch_ret('native_complex')
@@ -101,7 +101,7 @@ def r1(R, repo):
           astu.is_const(a0.slice, 0) and astu.is_const(a1.slice, 1)
     else:
       ok = False
-    R.check(ok, key_of(mod.rel, 'complex codec pair'), (pack, produced['native_complex']), 'complex must be written as (real, imag) and rebuilt as complex(t[0], t[1])')
+    R.judge(isinstance(w, ast.Call) and isinstance(r, ast.Call) and astu.call_name(r) == 'complex' and len(r.args) == 2 and astu.call_name(w) == 'msgpack.packb' and isinstance(w.args[0], ast.Tuple), ok, key_of(mod.rel, 'complex codec pair'), (pack, produced['native_complex']), 'complex must be written as (real, imag) and rebuilt as complex(t[0], t[1])')
   # fall-through
   last = unpack.node.body[-1]
   R.check(isinstance(last, ast.Return) and astu.src(last.value) == 'msgpack.ExtType(%s)' % ', '.join(astu.params(unpack.node)), key_of(unpack, 'unknown codes pass through'), unpack,
@@ -157,11 +157,11 @@ def r2(R, repo):
       read_roles[nme] = 'dtype'
   read_roles[astu.src(rs[0].args[0])] = 'shape'
   got = [read_roles.get(nme, '?') for nme in names]
-  R.check(roles == got and sorted(roles) == ['bytes', 'dtype', 'shape'], key_of(mod.rel, 'tuple roles writer == reader'), (r, ups[0]),
+  R.judge(sorted(roles) == ['bytes', 'dtype', 'shape'] and sorted(got) == ['bytes', 'dtype', 'shape'], roles == got, key_of(mod.rel, 'tuple roles writer == reader'), (r, ups[0]),
           'writer packs %s but the reader uses the elements as %s' % (roles, got))
   wo = _order_const(tob) if tob is not None else None
   ro = _order_const(rs[0], pos=99)
-  R.check(wo == 'C' and ro == 'C', key_of(mod.rel, 'same memory order on both sides'), (w, tpl),
+  R.judge(tob is not None and isinstance(wo, str) and isinstance(ro, str) and len(wo) == 1 and len(ro) == 1, wo == 'C' and ro == 'C', key_of(mod.rel, 'same memory order on both sides'), (w, tpl),
           'bytes are written in order %r but reshaped in order %r: non C-contiguous arrays would come back permuted' % (wo, ro))
   R.check(isinstance(rs[0].func.value, ast.Call) and rs[0].func.value is fb[0], key_of(r, 'reshape(frombuffer(...))'), r, 'the buffer must be reshaped to the stored shape')
   conv = [n for n in astu.body_walk(w.node) if isinstance(n, ast.If) and 'jax.Array' in astu.src(n.test)]
@@ -173,19 +173,20 @@ def r2(R, repo):
 def r3(R, repo):
   mod = repo.mod(SE)
   ch, un = mod.func('_chunk'), mod.func('_unchunk')
+  cs = lambda n: astu.const_str(n) or (astu.const_str(mod.assigns.get(n.id)) if isinstance(n, ast.Name) and mod.assigns.get(n.id) is not None else None)
   written = set()
   for n in astu.body_walk(ch.node):
     if isinstance(n, ast.Dict):
-      written |= {astu.const_str(k) for k in n.keys if astu.const_str(k)}
-    if isinstance(n, ast.Subscript) and isinstance(n.ctx, ast.Store) and astu.const_str(n.slice):
-      written.add(astu.const_str(n.slice))
-  read = {astu.const_str(n.slice) for n in astu.body_walk(un.node) if isinstance(n, ast.Subscript) and isinstance(n.ctx, ast.Load) and astu.const_str(n.slice)}
-  tested = {astu.const_str(n.left) for n in astu.body_walk(un.node) if isinstance(n, ast.Compare) and astu.const_str(n.left)}
-  R.check(written == read | tested and MARK in written, key_of(mod.rel, 'chunk dict keys writer == reader'), ch,
+      written |= {cs(k) for k in n.keys if cs(k)}
+    if isinstance(n, ast.Subscript) and isinstance(n.ctx, ast.Store) and cs(n.slice):
+      written.add(cs(n.slice))
+  read = {cs(n.slice) for n in astu.body_walk(un.node) if isinstance(n, ast.Subscript) and isinstance(n.ctx, ast.Load) and cs(n.slice)}
+  tested = {cs(n.left) for n in astu.body_walk(un.node) if isinstance(n, ast.Compare) and cs(n.left)}
+  R.judge(len(written) >= 2 and len(read) >= 1, written == read | tested and MARK in written, key_of(mod.rel, 'chunk dict keys writer == reader'), ch,
           '_chunk writes keys %s, _unchunk reads %s and tests %s' % (sorted(written), sorted(read), sorted(tested)))
   ul = mod.func('_unchunk_array_leaves_in_place')
-  marks = [astu.const_str(n.left) for n in astu.body_walk(ul.node) if isinstance(n, ast.Compare) and astu.const_str(n.left)]
-  R.check(marks and all(m_ == MARK for m_ in marks) and len(marks) >= 2, key_of(ul, 'same marker key'), ul, 'the chunk marker tested when restoring differs from the one written')
+  marks = [cs(n.left) for n in astu.body_walk(ul.node) if isinstance(n, ast.Compare) and cs(n.left)]
+  R.judge(len(marks) >= 2 and MARK in written, marks and all(m_ == MARK for m_ in marks), key_of(ul, 'same marker key'), ul, 'the chunk marker tested when restoring differs from the one written')
   # the marker test is applied to the root and to every nested dict value, recursing otherwise
   rec = [c for c in astu.func_calls(ul) if astu.call_name(c) == '_unchunk_array_leaves_in_place']
   unc = [c for c in astu.func_calls(ul) if astu.call_name(c) == '_unchunk']
@@ -208,7 +209,7 @@ def r3(R, repo):
     ok = astu.src(flat.args[0]) in ('-1', '(-1,)')
   rsh = [c for c in astu.func_calls(un) if astu.call_tail(c) == 'reshape']
   ok2 = len(rsh) == 1 and _order_const(rsh[0], pos=99) == 'C'
-  R.check(ok and ok2, key_of(mod.rel, 'chunks flattened and restored in C order'), (ch, flat if flat is not None else ch.node),
+  R.judge(isinstance(flat, ast.Call) and astu.call_tail(flat) in ('reshape', 'ravel', 'flatten') and len(rsh) == 1, ok and ok2, key_of(mod.rel, 'chunks flattened and restored in C order'), (ch, flat if flat is not None else ch.node),
           '_chunk must flatten in C order (`%s`) because _unchunk reshapes the concatenated chunks in C order' % astu.short(flat))
   # slices cover the flat array without gaps/overlap
   comps = [n for n in astu.body_walk(ch.node) if isinstance(n, ast.ListComp)]
@@ -268,9 +269,9 @@ def r4(R, repo):
     lab = 'T' if astu.src(tests[0].ast) == 'not in_place' else 'F'
     other = [(tests[0], m, l) for m, l in c.succ[tests[0]] if l != lab]
     ok = all(c.must_pass(c.entry, n, copies, avoid_edges=other) for n in inpl)
-  R.check(ok, key_of(ms, 'copy before in-place passes unless in_place'), ms,
+  R.judge(len(copies) == 1 and len(tests) == 1, ok, key_of(ms, 'copy before in-place passes unless in_place'), ms,
           'msgpack_serialize must rebind the tree to a tree_map copy before any *_in_place pass when in_place is false')
-  R.check(astu.is_const(astu.param_default(ms.node, 'in_place'), False), key_of(ms, 'in_place defaults to False'), ms, 'in_place must default to False')
+  R.check(astu.is_const(astu.param_default(ms.node, 'in_place'), False), key_of(ms, 'in_place defaults to False'), ms, 'in_place must default to False', evidence='in_place' in astu.params(ms.node))
   pk = [x for x in astu.func_calls(ms) if astu.call_name(x) == 'msgpack.packb']
   R.check(len(pk) == 1 and astu.is_const(astu.kwarg(pk[0], 'strict_types'), True) and astu.src(astu.kwarg(pk[0], 'default')) == '_msgpack_ext_pack',
           key_of(ms, 'packb(default=_msgpack_ext_pack, strict_types=True)'), ms, 'msgpack.packb must use the ext packer and strict_types=True (dict subclasses are rejected, not silently aliased)')
@@ -286,7 +287,7 @@ def r4(R, repo):
             arg = call.args[0]
             d = types.single_def(f.node, arg.id) if isinstance(arg, ast.Name) else arg
             ok = f.fq == 'flax.serialization:to_bytes' and isinstance(d, ast.Call) and astu.call_name(d) == 'to_state_dict'
-            R.check(ok, key_of(f, 'msgpack_serialize(..., in_place=%s)' % astu.src(v)), (f, call),
+            R.check(ok, key_of(f, 'msgpack_serialize(..., in_place=%s)' % astu.src(v)), (f, call), evidence=astu.is_const(v, True) and f.fq != 'flax.serialization:to_bytes', msg_fail=
                     'in_place serialisation rewrites its argument; it is only safe on the fresh state dict built by to_state_dict inside to_bytes')
   R.require(n_true >= 1, 'to_bytes no longer serialises in place (table out of date)')
   regs = _registrations(repo)
@@ -296,7 +297,10 @@ def r4(R, repo):
     if to_fn is None:
       raise AnalysisError('cannot resolve the to_state_dict handler registered for %s' % ty)
     ok, msg = _fresh_dict_return(to_fn, regs)
-    R.check(ok, key, (m, call), 'the handler registered for %s %s: to_bytes would then rewrite the caller\'s own container in place' % (ty, msg))
+    tn = getattr(to_fn, 'node', to_fn)
+    p0 = (tn.args.args[0].arg if tn.args.args else None)
+    aliased = p0 is not None and any(v_ is not None and (evid.raw3(to_fn, v_, p0) == evid.RAW if not isinstance(tn, ast.Lambda) else (isinstance(v_, ast.Name) and v_.id == p0)) for v_ in _returns(to_fn))
+    R.judge(ok or aliased, ok, key, (m, call), 'the handler registered for %s %s: to_bytes would then rewrite the caller\'s own container in place' % (ty, msg))
   ts = mod.func('to_state_dict')
   rets = _returns(ts)
   ok = len(rets) == 2 and astu.src(rets[0]) == astu.params(ts.node)[0]
@@ -306,7 +310,7 @@ def r4(R, repo):
     f = mod.func(name)
     p0 = astu.params(f.node)[0]
     st = [n for n in astu.body_walk(f.node) if isinstance(n, ast.Subscript) and isinstance(n.ctx, ast.Store)]
-    R.check(all(astu.src(s.value) == p0 for s in st) and st, key_of(f, 'writes only into its argument'), f, '%s must only assign into the dict it was given' % name)
+    R.judge(bool(st), all(astu.src(s.value) == p0 for s in st), key_of(f, 'writes only into its argument'), f, '%s must only assign into the dict it was given' % name)
 
 
 HANDLERS = [(SE, '_restore_list'), (SE, '_restore_dict'), (SE, '_restore_namedtuple'), (ST, 'dataclass.from_state_dict'), (FD, '_restore_frozen_dict')]
@@ -347,7 +351,10 @@ def r5(R, repo):
               involved |= astu.names_loaded(d)
         ok = tp in involved and sp in involved or (sp in involved and any(x in involved for x in ('data_fields', 'name')))
         msg = 'the mismatch test does not compare the target with the saved state'
-    R.check(ok, key_of(f, 'mismatch raises with the path before restoring children'), f, '%s: %s' % (qual, msg))
+    if not named and not raises and not evid.raises_deep(repo, f, 'ValueError'):
+      R.fail(key_of(f, 'mismatch raises with the path before restoring children'), f, '%s no longer raises ValueError for a target/state mismatch' % qual)
+    else:
+      R.judge(bool(named) and (ok or msg == 'the mismatch test does not precede every child restore'), ok, key_of(f, 'mismatch raises with the path before restoring children'), f, '%s: %s' % (qual, msg))
 
 
 @rule('C10.R6', 'K7', 5, 'restoring matches children by key / field / index, never by position')
@@ -403,7 +410,7 @@ def r6(R, repo):
       if not ok:
         bad = (call, 'child state `%s` and child target `%s` are not tied by one key/index/field name' % (astu.short(S), astu.short(T)))
         break
-    R.check(bad is None, key_of(f, 'children matched by key'), (f, bad[0]) if bad else f,
+    R.judge(bad is None or 'zip()' in bad[1], bad is None, key_of(f, 'children matched by key'), (f, bad[0]) if bad else f,
             '%s: %s — entries could be mis-assigned when the saved state is ordered differently' % (qual, bad[1] if bad else ''))
 
 
@@ -415,24 +422,27 @@ def r7(R, repo):
   def dispatch(f):
     ifs = [s for s in astu.strip_docstring(f.node.body) if isinstance(s, ast.If)]
     return astu.src(ifs[0]) if ifs else None
-  R.check(dispatch(a) is not None and dispatch(a) == dispatch(b), key_of(mod.rel, 'registry key computed identically'), a,
+  ia = [s_ for s_ in astu.strip_docstring(a.node.body) if isinstance(s_, ast.If)]
+  ib = [s_ for s_ in astu.strip_docstring(b.node.body) if isinstance(s_, ast.If)]
+  dl = evid.delta(ia[0], ib[0], {'_NamedTuple', 'type', 'target', '_is_namedtuple', 'ty'}) if ia and ib else 'other'
+  R.judge(dl in ('same', 'swap'), dl == 'same', key_of(mod.rel, 'registry key computed identically'), a,
           'to_state_dict and from_state_dict must compute the registry key the same way (namedtuple -> _NamedTuple, else type(target))')
   sa = [astu.src(n.slice) for n in astu.body_walk(a.node) if isinstance(n, ast.Subscript) and astu.src(n.value).startswith('_STATE_DICT_REGISTRY[')]
   sb = [astu.src(n.slice) for n in astu.body_walk(b.node) if isinstance(n, ast.Subscript) and astu.src(n.value).startswith('_STATE_DICT_REGISTRY[')]
-  R.check(sa == ['0'] and sb == ['1'], key_of(mod.rel, 'slot 0 writes, slot 1 reads'), a, 'to_state_dict must use registry slot [0] and from_state_dict slot [1] (got %s / %s)' % (sa, sb))
+  R.judge(len(sa) == 1 and len(sb) == 1, sa == ['0'] and sb == ['1'], key_of(mod.rel, 'slot 0 writes, slot 1 reads'), a, 'to_state_dict must use registry slot [0] and from_state_dict slot [1] (got %s / %s)' % (sa, sb))
   reg = mod.func('register_serialization_state')
   st = [n for n in astu.body_walk(reg.node) if isinstance(n, ast.Assign) and astu.src(n.targets[0]).startswith('_STATE_DICT_REGISTRY[')]
   ps = astu.params(reg.node)
-  R.check(len(st) == 1 and astu.src(st[0].value) == '(%s, %s)' % (ps[1], ps[2]), key_of(reg, 'stores (to, from)'), reg, 'the registry must store (ty_to_state_dict, ty_from_state_dict) in that order')
+  evid.judge_expr(R, reg, st[0].value if len(st) == 1 else None, '(%s, %s)' % (ps[1], ps[2]), key_of(reg, 'stores (to, from)'), reg, 'the registry must store (ty_to_state_dict, ty_from_state_dict) in that order')
   cb = cfg_of(b)
   withs = [n for n in cb.nodes if n.kind == 'with' and '_record_path' in astu.src(n.ast)]
   calls = [n for n in cb.nodes if isinstance(n.stmt, ast.Return) and isinstance(n.stmt.value, ast.Call) and astu.src(n.stmt.value.func) == 'ty_from_state_dict']
-  R.check(len(withs) == 1 and len(calls) == 1 and cb.dominated(calls[0], withs) and astu.src(withs[0].ast) == '_record_path(%s)' % astu.params(b.node)[2], key_of(b, 'handler runs under _record_path(name)'), b,
+  R.judge(len(withs) == 1 and len(calls) == 1, len(withs) == 1 and len(calls) == 1 and cb.dominated(calls[0], withs) and astu.src(withs[0].ast) == '_record_path(%s)' % astu.params(b.node)[2], key_of(b, 'handler runs under _record_path(name)'), b,
           'from_state_dict must run the handler inside `with _record_path(name)` so errors name the path')
   rp = mod.func('_record_path')
   tr = [n for n in astu.body_walk(rp.node) if isinstance(n, ast.Try)]
   ok = len(tr) == 1 and tr[0].finalbody and 'path.pop()' in astu.src(tr[0].finalbody[0]) and 'path.append(%s)' % astu.params(rp.node)[0] in astu.src(tr[0])
-  R.check(ok, key_of(rp, 'append / pop in finally'), rp, '_record_path must pop the path component in a finally block')
+  R.judge(len(tr) == 1 and bool(tr[0].finalbody), ok, key_of(rp, 'append / pop in finally'), rp, '_record_path must pop the path component in a finally block')
   nt = mod.func('_is_namedtuple')
   R.check("isinstance(x, tuple) and hasattr(x, '_fields')" in astu.src(nt.node), key_of(nt, 'tuple with _fields'), nt, '_is_namedtuple must be `isinstance(x, tuple) and hasattr(x, "_fields")`')
 
